@@ -57,7 +57,11 @@ def rs2lean():
         crate = os.path.join(VERIF, "tools", "rs2lean")
         exe = os.path.join(crate, "target", "release", "rs2lean")
         with Lock("rs2lean"):
-            if not os.path.exists(exe):
+            srcs = [os.path.join(crate, "Cargo.toml")] + [os.path.join(crate, "src", f) for f in os.listdir(os.path.join(crate, "src"))]
+            stale = os.path.exists(exe) and any(os.path.getmtime(f) > os.path.getmtime(exe) for f in srcs)
+            if not os.path.exists(exe) or stale:
+                # the translator is (re)built whenever its own sources are newer than the binary: a stale binary would
+                # leave the files of units it does not know untouched, i.e. stale
                 subprocess.run(["cargo", "build", "--release", "--offline"], cwd=crate, capture_output=True, text=True, env=ENV, timeout=1200)
             gen = os.path.join(LEAN, "SmVerif", "Generated")
             with Lock("lean"):
